@@ -5,7 +5,7 @@ from core import Case, call_impl, enc_header
 from props.tr31util import VERS, rb, rs, rand_blocks, make_header, genuine, split_block, Session, clone_header, tr31, ALNUM
 
 OBLIGATIONS = ["Psec.Props.C17.load_eq_pure", "Psec.Props.C17.load_state_independent", "Psec.Props.C17.unwrap_state_independent", "Psec.Props.C17.step_kbpk", "Psec.Props.C17.history_independent", "Psec.Props.C17.load_overwrites_everything", "Psec.Props.C17.wrap_depends_on_fields"]
-TRUSTED_BASE = ["Lean 4.33 kernel", "the objects' visible state is read through the attributes _version_id ... _reserved and blocks._blocks", "correspondence harness and compiled driver"]
+TRUSTED_BASE = ["Lean 4.33 kernel", "the objects' visible state is read (and headers are built) through the public interface only: attributes, Header.load, the mapping protocol of blocks", "correspondence harness and compiled driver"]
 RULE = ("random operation sequences of length 1..12 on one KeyBlock (ingredients: successful unwraps of every version with different optional blocks / reserved fields, unwraps "
         "failing at each parsing / validation stage, header loads, block insertion / overwrite / removal, attribute assignment, wraps, str); outcome and full visible state "
         "compared with the model after every step; the last step is repeated on a fresh object (implementation only, messages included); thorough: all sequences of length <= 3 "
